@@ -25,6 +25,8 @@ TEMPLATES = {
     "nested_align_longer": ("    assert [x0, x1, x2] == snapshot([snapshot(c0), c1])\n", ["x0", "x1", "x2", "c0", "c1"]),
     "nested_align_shorter": ("    assert [x0] == snapshot([c1, snapshot(c0), c2])\n", ["x0", "c0", "c1", "c2"]),
     "nested_align_same": ("    assert [x0, x1] == snapshot([snapshot(c0), c1])\n", ["x0", "x1", "c0", "c1"]),
+    "nested_handwritten_same": ("    assert [x0, x1] == snapshot([snapshot(h0), c1])\n", ["x0", "x1", "h0", "c1"]),
+    "nested_handwritten_list": ("    assert [x0, x1] == snapshot([snapshot([h0, c0]), c1])\n", ["x0", "x1", "h0", "c0", "c1"]),
     "nested_empty_in_list": ("    assert [x0, x1] == snapshot([snapshot(), c1])\n", ["x0", "x1", "c1"]),
     "nested_empty_longer": ("    assert [x0, x1, x2] == snapshot([snapshot(), c1])\n", ["x0", "x1", "x2", "c1"]),
     "nested_parent_replaced": ("    assert x0 == snapshot([snapshot(c0), c1])\n", ["x0", "c0", "c1"]),
